@@ -65,7 +65,7 @@ TYPEDEFS = ['gint', 'guint', 'gboolean', 'gchar', 'guchar', 'gint8', 'guint8', '
             'gunichar', 'gunichar2', 'gpointer', 'gconstpointer', 'gintptr', 'guintptr', 'goffset', 'int8_t', 'uint8_t',
             'int32_t', 'uint64_t', 'size_t', 'ssize_t', 'time_t', 'off_t', 'pid_t', 'GStrv', 'va_list', 'bool',
             'FooRec', 'FooBox', 'FooEnum', 'FooCb', 'FooAlias', 'FooUnknown', 'GDestroyNotify', 'GAsyncReadyCallback', 'GFunc',
-            'GQuark']
+            'GQuark', 'FooAlias2', 'FooCb2']
 PTR_BASES = ['char', 'gchar', 'void', 'gint', 'int', 'gpointer', 'guint8', 'FooRec', 'FooBox', 'FooUnknown', 'GList', 'GSList',
              'GHashTable', 'GArray', 'GPtrArray', 'GByteArray', 'GError', 'GObject', 'GVariant', 'FILE', 'GValue', 'FooObj',
              'GCancellable']
@@ -74,6 +74,7 @@ PTR_BASES = ['char', 'gchar', 'void', 'gint', 'int', 'gpointer', 'guint8', 'FooR
 ENV = {
     'FooRec': ('Foo.Rec', 'KRecordPlain'), 'FooBox': ('Foo.Box', 'KRecordBoxed'), 'FooEnum': ('Foo.Enum', 'KEnum'),
     'FooCb': ('Foo.Cb', 'KCallback'), 'FooAlias': ('Foo.Alias', 'KAliasBasic'), 'FooObj': ('Foo.Obj', 'KClass'),
+    'FooAlias2': ('Foo.Alias2', 'KAliasBasic'), 'FooCbA': ('Foo.CbA', 'KCallback'), 'FooCb2': ('Foo.Cb2', 'KCallback'),
     'GDestroyNotify': ('GLib.DestroyNotify', 'KDestroyNotify'), 'GAsyncReadyCallback': ('Gio.AsyncReadyCallback', 'KAsyncReady'),
     'GFunc': ('GLib.Func', 'KCallback'), 'GError': ('GLib.Error', 'KRecordBoxed'), 'GObject': ('GObject.Object', 'KClass'),
     'GVariant': ('GLib.Variant', 'KRecordBoxed'), 'GValue': ('GObject.Value', 'KRecordBoxed'),
@@ -167,6 +168,10 @@ def world_symbols():
             S.enum_typedef('FooEnum', [('FOO_ENUM_A', 0, False), ('FOO_ENUM_B', 1, False)]),
             S.cbtypedef('FooCb', S.VOID, [S.param('user_data', S.td('gpointer'))]),
             S.FS(S.CSYMBOL_TYPE_TYPEDEF, 'FooAlias', base_type=S.td('gint')),
+            # typedefs of typedefs: two links down to a basic type and to a callback type
+            S.FS(S.CSYMBOL_TYPE_TYPEDEF, 'FooAlias2', base_type=S.td('FooAlias')),
+            S.FS(S.CSYMBOL_TYPE_TYPEDEF, 'FooCbA', base_type=S.td('FooCb')),
+            S.FS(S.CSYMBOL_TYPE_TYPEDEF, 'FooCb2', base_type=S.td('FooCbA')),
             S.func('foo_box_get_type', S.td('GType'), []), S.func('foo_obj_get_type', S.td('GType'), [])]
     return syms
 
@@ -238,10 +243,10 @@ def main(tier, seed):
                 ck.failing_input('a void pointer parameter is not described as gpointer', dict(function=f, param=n), detail=o)
         if f['ret'] in (T_ptr(T_ptr(T_basic('char'))), T_ptr(T_ptr(T_td('gchar')))) and not (c['robs']['array'] and c['robs']['child'] == 'utf8'):
             ck.failing_input('a returned char** is not an array of utf8', dict(function=f), detail=c['robs'])
-        if f['ret'] in (T_td('FooAlias'), T_td('GQuark'), T_td('gint'), T_basic('int')) and c['robs']['transfer'] != 'none':
+        if f['ret'] in (T_td('FooAlias'), T_td('FooAlias2'), T_td('GQuark'), T_td('gint'), T_basic('int')) and c['robs']['transfer'] != 'none':
             ck.failing_input('a returned basic type (or alias of one) does not default to transfer none', dict(function=f), detail=c['robs'])
         # callback arrangements
-        CBS = ('FooCb', 'GFunc', 'GAsyncReadyCallback')
+        CBS = ('FooCb', 'FooCb2', 'GFunc', 'GAsyncReadyCallback')
         finals = f['params'][:len(c['pobs'])]
         for i, ((n, t), o) in enumerate(zip(finals, c['pobs'])):
             if not (t[0] == 'td' and t[1] in CBS):
